@@ -60,7 +60,7 @@ func (c *Ctx) Distinct(k string) {
 		c.res.Distinct = append(c.res.Distinct, k)
 	}
 }
-func (c *Ctx) Nontrivial()        { c.res.Nontrivial = true }
+func (c *Ctx) Nontrivial()          { c.res.Nontrivial = true }
 func (c *Ctx) Sample(v interface{}) { c.res.Sample = v }
 func (c *Ctx) Violate(rule, sig, format string, a ...interface{}) {
 	d := fmt.Sprintf(format, a...)
@@ -102,7 +102,7 @@ type Property struct {
 
 var registry = map[string]*Property{}
 
-func Register(p *Property) { registry[p.ID] = p }
+func Register(p *Property)    { registry[p.ID] = p }
 func Get(id string) *Property { return registry[id] }
 func IDs() []string {
 	var ids []string
